@@ -439,6 +439,25 @@ def _translate(text, info, is_pxd=False):
                     enum_next += 1
             # enum members are emitted one block level up
             ind = " " * mode_stack[-1][0]
+        elif mode == "enumclass":
+            parts = []
+            for part in split_top(stripped):
+                part = part.strip()
+                if not part:
+                    continue
+                if "=" in part:
+                    nm, val = part.split("=", 1)
+                    parts.append(f"{nm.strip()} = {val.strip()}")
+                    try:
+                        enum_next = int(val.strip(), 0) + 1
+                    except ValueError:
+                        enum_next = None
+                else:
+                    if enum_next is None:
+                        raise CyError("enum auto value after non-literal")
+                    parts.append(f"{part} = {enum_next}")
+                    enum_next += 1
+            new = "; ".join(parts)
         elif mode == "cdefblock":
             new = rewrite_line("cdef " + stripped, info, mode_stack, indent)
             ind = " " * indent
@@ -455,7 +474,7 @@ def _translate(text, info, is_pxd=False):
                 new = new[1]
             elif kind == "push":
                 mode_stack.append((indent, new[1], new[2] if len(new) > 2 else None))
-                if new[1] == "enum":
+                if new[1] in ("enum", "enumclass"):
                     enum_next = 0
                 new = new[3] if len(new) > 3 else "pass"
         out_lines[first - 1] = ind + new
@@ -468,6 +487,10 @@ def _wrap_errors():
 
 def rewrite_line(s, info, mode_stack, indent):
     # --- imports
+    m = re.match(r"^from\s+(\.[\w\.]*|biotite[\w\.]*)\s+cimport\s+(.*)$", s)
+    if m:
+        # repository-internal cimport: the names come from the sibling .pyx/.pxd
+        return f"from {m.group(1)} import {m.group(2)}"
     if re.match(r"^(from\s+\S+\s+)?cimport\b", s):
         info["dropped"].append("cimport")
         return "pass"
@@ -520,6 +543,8 @@ def rewrite_line(s, info, mode_stack, indent):
             return "; ".join(vals)
         if m.group(2):
             info["aliases"][m.group(2)] = "int"
+            info["enums"][m.group(2)] = True
+            return ("push", "enumclass", m.group(2), f"class {m.group(2)}:")
         return ("push", "enum", m.group(2), "pass")
     # --- struct / union
     if re.match(r"^cdef\s+(packed\s+)?(struct|union)\b", s):
